@@ -176,3 +176,20 @@ fn idles_run_in_the_iteration_in_which_a_callback_stops_the_loop() {
     el.run(Duration::from_millis(200), &mut log, |log| log.push("cb")).unwrap();
     assert_eq!(log, vec!["source", "idle-before", "idle-from-callback", "cb"]);
 }
+
+/// round 9 (seed C13-6): however many idles are pending, every one of them runs in the first dispatch that returns Ok after
+/// its insertion (there is no per-dispatch batch limit for idles), in insertion order
+#[test]
+fn a_large_number_of_pending_idles_all_run_in_the_first_dispatch() {
+    for n in [1usize, 1024, 1025, 3000] {
+        let mut el: EventLoop<Vec<usize>> = EventLoop::try_new().unwrap();
+        let h = el.handle();
+        for i in 0..n { h.insert_idle(move |v: &mut Vec<usize>| v.push(i)); }
+        let mut v = vec![];
+        el.dispatch(Duration::ZERO, &mut v).unwrap();
+        assert_eq!(v.len(), n, "only {} of {} pending idles ran in the dispatch that followed their insertion", v.len(), n);
+        assert!(v.iter().enumerate().all(|(i, x)| i == *x), "idles ran out of insertion order");
+        el.dispatch(Duration::ZERO, &mut v).unwrap();
+        assert_eq!(v.len(), n, "idles run exactly once");
+    }
+}
